@@ -56,3 +56,22 @@ bool ws_ok_read(draco::DecoderBuffer *b, std::string *s) {
   return b->Decode(&(*s)[0], n);
 }
 }  // namespace verif_control
+
+// ---- PRESENCE control: the flag is set under a narrower condition than the block is written ------------
+namespace verif_control {
+struct presence_Src { const int *ps_has_block() const; int n() const; };
+void presence_write_block(const int *);
+int presence_setter_bad(const presence_Src &s) {
+  int flags = 0;
+  const int *blk = s.ps_has_block();
+  if (blk != nullptr && s.n() > 0) {
+    flags |= 0x8000;
+  }
+  return flags;
+}
+bool presence_writer_ok(const presence_Src &s) {
+  if (!s.ps_has_block()) return true;
+  presence_write_block(s.ps_has_block());
+  return true;
+}
+}  // namespace verif_control
